@@ -539,7 +539,7 @@ fn worker_main(args: &[String]) -> ! {
 
 fn gen_single(t: &mut Tape) -> Vec<Op> {
     let mut model = [Model::Free; NSLOTS];
-    let n = t.range(3, 11);
+    let n = t.range(4, 14);
     gen_ops(t, n, 0, 12, &mut model, 2)
 }
 
@@ -1223,12 +1223,12 @@ pub fn main() {
         worker_main(&args);
     }
     let mut ck = Check::new("C23", "fault_enumeration");
-    ck.rule("signal-at-syscall: scripts of 3..11 operations (new / writable_at / mark_at / gix-lock File and Marker, optionally in nested directories with cleanup boundary; write, close, persist/commit, take, drop) over up to 12 tempfiles in a single-threaded worker with the handler installed in mode DeleteTempfilesOnTerminationAndRestoreDefaultBehaviour; EVERY syscall the worker makes between the start and the end of the script (and a getppid() between any two operations) is a delivery point for SIGTERM/SIGINT/SIGQUIT in rotation: one worker run per point. Non-trivial: a script with a delivery point at which >= 2 tempfiles are registered and >= 1 is idle; distinct by hash of the decoded script. fork-ownership: prefix + fork + parent/child scripts, signal to parent or child; non-trivial: both processes hold an idle tempfile. signal-storm: 1..3 threads x 3..8 rounds of such scripts under 20..400 handled signals; non-trivial: >= 10 signals and >= 20 operations.");
+    ck.rule("signal-at-syscall: scripts of 4..14 operations (new / writable_at / mark_at / gix-lock File and Marker, optionally in nested directories with cleanup boundary; write, close, persist/commit, take, drop) over up to 12 tempfiles in a single-threaded worker with the handler installed in mode DeleteTempfilesOnTerminationAndRestoreDefaultBehaviour; EVERY syscall the worker makes between the start and the end of the script (and a getppid() between any two operations) is a delivery point for SIGTERM/SIGINT/SIGQUIT in rotation: one worker run per point. Non-trivial: a script with a delivery point at which >= 2 tempfiles are registered and >= 1 is idle; distinct by hash of the decoded script. fork-ownership: prefix + fork + parent/child scripts, signal to parent or child; non-trivial: both processes hold an idle tempfile. signal-storm: 1..3 threads x 3..8 rounds of such scripts under 20..400 handled signals; non-trivial: >= 10 signals and >= 20 operations.");
     ck.assume("strace delivers the injected signal when the k-th invocation of the named syscall returns (checked by hand: the syscall is executed, the handler runs before the next instruction of the worker); its invocation counters are per syscall name, so a delivery point is (name, ordinal) taken from a counting pass of the same deterministic worker");
     ck.assume("tempfiles that are inside an API call when the handler runs (journal: creating / in-call / persisting / dropping) are exempt, as documented in the crate's 'Limitations'; so are files handed out by take()");
     ck.assume("signal-storm judges only the state after the last signal, which is raised when no other thread runs: while other threads mutate the registry the handler may skip a shard it cannot lock (documented), which is not observable from outside; a worker whose threads are all asleep 90 s after start is a deadlock, a worker still running then is inconclusive");
 
-    ck.sub("signal-at-syscall", SubCfg::new(40, 1000).max_len(64).max_shrink(12), run_signal_at_syscall);
+    ck.sub("signal-at-syscall", SubCfg::new(60, 1500).max_len(72).max_shrink(12), run_signal_at_syscall);
     let total = POINTS_TOTAL.load(SeqCst);
     if total > 0 {
         let by: Vec<String> = POINTS_BY_SYSCALL.lock().unwrap().iter().map(|(k, v)| format!("{k}:{v}")).collect();
